@@ -183,7 +183,9 @@ fn is_opaque_item(item: &Item) -> bool {
 impl RustWalk {
     fn walk_comp(&mut self, inv: &Inventory, module: &str, idx: usize, c: &Comp, rust_ty: &str, c_prefix: &str, base_off: &str) {
         // typedef aliases and newtype wrappers (`pub struct Alias(pub Inner);`) stand for their target
-        let mut rust_ty = rust_ty.to_string();
+        // flexible-array DSTs are generic over the array type with a sized default: the bare name
+        // names the default instantiation
+        let mut rust_ty = rust_ty.split('<').next().unwrap_or(rust_ty).trim().to_string();
         let mut hops = 0;
         let item = loop {
             let found = inv.items.iter().find(|i| matches!(i.kind.as_str(), "struct" | "union" | "type") && i.name == rust_ty && i.module == module);
